@@ -706,7 +706,15 @@ func drive(b *block, blockDone func() bool) string {
 		// the system account).  startReady: that prefix can complete now.
 		startReady := func(k int) bool {
 			t := &bc.Txs[k]
-			if worldLock(t) != 0 {
+			pred := worldLock(t) != 0
+			// a spawned world locker behind k holds k's mutex (through Realize) until
+			// every transaction before k has committed
+			for j := k + 1; j < int(b.prepared.Load()); j++ {
+				if worldLock(&bc.Txs[j]) != 0 && !committed(b.txs[j]) {
+					pred = true
+				}
+			}
+			if pred {
 				for i := 0; i < k; i++ {
 					if !committed(b.txs[i]) {
 						return false
@@ -1009,7 +1017,20 @@ func oracle(bc *blockCase, seq, conc observation) string {
 // Coq printing
 // ---------------------------------------------------------------------------
 
-func coqAcct(a int) string { return fmt.Sprintf("%d%%nat", a) }
+// model account numbers: 0 = system account, user account i = i+1
+func coqAcct(a int) string {
+	if a == SYS {
+		return "0%nat"
+	}
+	return fmt.Sprintf("%d%%nat", a+1)
+}
+
+func coqBalances(v []int64) string {
+	if len(v) != NA+1 {
+		return coqZs(v)
+	}
+	return coqZs(append([]int64{v[SYS]}, v[:NA]...))
+}
 
 func coqLock(l lockSpec) string {
 	k := "LRead"
@@ -1053,16 +1074,14 @@ func coqZs(v []int64) string {
 	return hxlib.CoqList(s)
 }
 
-// The transaction as the model sees it: the lock requests with the system read
-// lock that worldContext.GetFuture appends, and the program preceded by the
-// access to the system account that UpdateSystemInfo makes before Execute.
+// The transaction as the model sees it: the lock requests as handed to
+// ctx.GetFuture and the program (the model itself adds the system read lock of
+// worldContext.GetFuture and the UpdateSystemInfo access).
 func coqTx(t *txSpec) string {
 	var ls, is []string
 	for _, l := range t.Locks {
 		ls = append(ls, coqLock(l))
 	}
-	ls = append(ls, coqLock(lockSpec{ID: SYS}))
-	is = append(is, "IDo (STouch "+coqAcct(SYS)+")")
 	for i := range t.Prog {
 		is = append(is, coqInstr(&t.Prog[i]))
 	}
@@ -1082,7 +1101,7 @@ func coqCase(bc *blockCase, seq, conc observation, picks []int) string {
 	if bc.Sched.Kind == "serial" {
 		var o []string
 		for _, k := range bc.Sched.Order {
-			o = append(o, coqAcct(k))
+			o = append(o, hxlib.CoqNat(k))
 		}
 		sched = "SSerial " + hxlib.CoqList(o)
 	} else {
@@ -1091,8 +1110,8 @@ func coqCase(bc *blockCase, seq, conc observation, picks []int) string {
 		}
 		sched = "SPicks " + hxlib.CoqList(pk)
 	}
-	return fmt.Sprintf("(Case %s %s %s (%s) %s %s %s %s)", hxlib.CoqNat(bc.Level), coqZs(bc.Init), hxlib.CoqList(txs), sched,
-		coqZs(conc.Final), hxlib.CoqList(co), coqZs(seq.Final), hxlib.CoqList(so))
+	return fmt.Sprintf("(Case %s %s %s (%s) %s %s %s %s)", hxlib.CoqNat(bc.Level), coqBalances(bc.Init), hxlib.CoqList(txs), sched,
+		coqBalances(conc.Final), hxlib.CoqList(co), coqBalances(seq.Final), hxlib.CoqList(so))
 }
 
 // ---------------------------------------------------------------------------
